@@ -449,7 +449,10 @@ func runLayer2(e *lib.Env) *l2Totals {
 			e.Inconclusive("layer 2 watchdog: " + c.String())
 			return
 		}
-		if crash, what := lib.GoCrash(res); crash {
+		if crash, what := lib.GoCrash(res); crash && !hasGoTrace(res.Stderr) {
+			e.Inconclusive("layer 2: the process was killed from outside (" + what + "): " + c.String())
+			return
+		} else if crash {
 			t.mu.Lock()
 			t.crashed++
 			t.mu.Unlock()
